@@ -215,6 +215,12 @@ class RecurringTask(_Task):
             # install it
             _task_manager.install_task(self)
 
+    def resume_task(self):
+        if _debug: RecurringTask._debug("resume_task")
+
+        # pick up at the next interval, the old task time has passed
+        self.install_task()
+
 #
 #   RecurringFunctionTask
 #
